@@ -109,6 +109,7 @@ def c24_programs(rnd, n):
 def c24_scenario(prog):
     import os
     import select
+    import socket
     import paramiko.channel as pch
     import paramiko.buffered_pipe as bp
     from harness.drivers import chan as dchan
@@ -122,6 +123,7 @@ def c24_scenario(prog):
             ch._feed_extended(dchan.msg_ext(1, b"e" * prog["init"][1]))
         fd = ch.fileno()
         pipe = ch._pipe
+        ch.settimeout(0.0)
         events = []
 
         def tbody():
@@ -137,11 +139,10 @@ def c24_scenario(prog):
         def rbody(which):
             def body():
                 for _op in prog["R" + which]:
-                    buf = ch.in_buffer if which == "1" else ch.in_stderr_buffer
                     # recv()/recv_stderr() as an application uses them after select(): never blocks
                     try:
-                        d = buf.read(65536, 0.0)
-                    except bp.PipeTimeout:
+                        d = ch.recv(65536) if which == "1" else ch.recv_stderr(65536)
+                    except socket.timeout:
                         d = b""
                     events.append({"op": "r" + which, "n": len(d)})
             return body
